@@ -215,6 +215,11 @@ class ExprMixin:
             hook = self.reg.constants.get(f"{module.modname}.{name}")
             if hook is not None:
                 return hook(self, st)
+            if isinstance(val.func, ast.Name) and extract.find_class(val.func.id, self.reg.modules) is not None:
+                # module-level instance of a repo class: its exact class is known
+                self.note_class(val.func.id)
+                st.pc.append(typeof(c) == CLASSES.const(val.func.id))
+                st.pc.append(c != NONE)
             return S_val(c)
         if isinstance(val, (ast.Name,)):
             return self.resolve_global(val.id, st, module)
